@@ -845,7 +845,7 @@ class Executor:
         st = st or State()
         self.paths = []
         # wall-clock budget of one symbolic run: exceeding it is an encoding gap (exit 2), never a verdict
-        self.deadline = time.time() + float(os.environ.get("VERIF_SYMEX_BUDGET_S", "600"))
+        self.deadline = time.time() + float(os.environ.get("VERIF_SYMEX_BUDGET_S", "900"))
         fid = self.new_frame(st)
         for i, (local, ty) in enumerate(fn.args):
             if args and i < len(args) and args[i] is not None:
